@@ -60,6 +60,24 @@ func laneTrits(seed uint64, mode, j, n int) []int8 {
 		p := (j * 131) % n
 		out[p] = int8((int(out[p])+2)%3) - 1
 	}
+	if mode == 4 || mode == 5 {
+		// all-zero trits except one position (mode 4: position 0, 1, n-1 or a drawn one; the lanes get
+		// different trits there) or except the first k positions (mode 5): states next to the all-zero
+		// state, which is a fixed point of Curl-P and a tempting special case
+		for i := range out {
+			out[i] = 0
+		}
+		s2 := seed ^ 0x5bd1e995
+		p := []int{0, 0, 1, n - 1, int(splitmix(&s2) % uint64(n))}[seed%5]
+		if mode == 4 {
+			out[p] = int8((uint64(j)+seed/5)%3) - 1
+		} else {
+			for i := 0; i <= int(seed%7); i++ {
+				out[i] = int8((uint64(j+i)+seed/7)%3) - 1
+			}
+		}
+		return out
+	}
 	if mode == 3 { // sparse: mostly zero
 		for i := range out {
 			if splitmix(&s)%16 != 0 {
@@ -108,10 +126,10 @@ func TestSpongeLevel(t *testing.T) {
 	h.Run(t, h.Sub[hashCase]{
 		Prop: "C20", Name: "sponge-level-" + buildVariant, N: 150,
 		Gen: func(t *rapid.T) hashCase {
-			return hashCase{Seed: rapid.Uint64().Draw(t, "seed"), Mode: rapid.IntRange(0, 3).Draw(t, "mode"),
+			return hashCase{Seed: rapid.Uint64().Draw(t, "seed"), Mode: rapid.IntRange(0, 5).Draw(t, "mode"),
 				N: h.OneOf(t, "n", 1, 2, 7, curl.MaxBatchSize-1, curl.MaxBatchSize, curl.MaxBatchSize), Blocks: rapid.IntRange(1, 2).Draw(t, "blocks")}
 		},
-		Check: checkHash, Require: []string{"sponge/mode2"},
+		Check: checkHash, Require: []string{"sponge/mode2", "sponge/mode4"},
 		Rule: "public-API part (no hook): 1..W lanes (W = bits per machine word of the build target) absorbed and two blocks squeezed through the build-selected permutation = scalar Curl-P-81 per lane; run on the default build, the purego build and the GOARCH=386 build (32-bit words), so hashes are independent of build target and tag; non-trivial = >= 2 distinct lanes; distinct by case",
 	})
 }
